@@ -2064,13 +2064,13 @@ fn split_unsigned_range(
                 ranges.push(Ctor::UnsignedInclusiveRange(
                     ty,
                     range[0] as u64 + 1,
-                    range[1] as u64 - 1,
+                    (range[1] - 1) as u64,
                 ));
             } else {
                 ranges.push(Ctor::UnsignedInclusiveRange(
                     ty,
                     range[0] as u64,
-                    range[1] as u64 - 1,
+                    (range[1] - 1) as u64,
                 ));
             }
         }
@@ -2121,7 +2121,7 @@ fn split_signed_range(
             ranges.push(Ctor::SignedInclusiveRange(
                 ty,
                 range[0] as i64,
-                range[1] as i64 - 1,
+                (range[1] - 1) as i64,
             ));
         }
     }
